@@ -59,8 +59,23 @@ def registers_of(cls):
 # displacements / nested immediates: the mod/disp8/disp32 and sign boundaries
 DISPS = [0, 1, -1, 127, 128, -128, -129, 2 ** 31 - 1, -2 ** 31]
 # mnemonics whose classes get the EXHAUSTIVE register x addressing-mode grid in every tier
-CORE = {"mov", "lea", "add", "sub", "cmp", "push", "pop", "movzx", "movsx", "and", "or", "xor", "test",
+CORE = {"mov", "lea", "add", "sub", "cmp", "push", "pop", "movzx", "movsx", "and", "or", "orr", "xor", "test",
         "ldr", "str", "ldrb", "strb", "ldrh", "strh", "lw", "sw", "lb", "sb", "movl", "movw", "movb"}
+
+
+def ror32(v, n):
+    n %= 32
+    v &= 0xFFFFFFFF
+    return ((v >> n) | (v << (32 - n))) & 0xFFFFFFFF
+
+
+# every value an ARM "modified immediate" can denote: imm8 rotated right by 2*rot (4096 pairs, 3073 values)
+ARM_MODIMM = sorted({ror32(i8, 2 * r) for r in range(16) for i8 in range(256)})
+ARM_MODIMM_EDGE = [255, 256, 257, 260, 1020, 1024, 0xFF000000, 0x80000001, 0x3FC, 0xFF0, 0xF000000F, 0xC0000034, 0x104]
+ARM_DP = {"mov", "mvn", "cmp", "cmn", "tst", "teq", "add", "sub", "and", "orr", "eor", "bic", "rsb", "adc", "sbc", "rsc"}
+
+
+ARM_MODIMM_SET = frozenset(ARM_MODIMM)
 
 
 def special_regs(regs):
@@ -435,6 +450,9 @@ def split(isa, text, has_label):
     mn, rest = m.group(1).lower(), m.group(2)
     if isa == "mips":
         rest = re.sub(r"\$(\d+)", r"gpr\1", rest)           # $5 -> register 5
+    if isa == "arm":
+        # llvm prints a non-canonical modified immediate as `#imm8, #rot`: the value is imm8 ror rot
+        rest = re.sub(r"#(\d+),\s*#(\d+)\s*$", lambda mm: "#" + str(ror32(int(mm.group(1)), int(mm.group(2)))), rest)
     if isa == "x86_64":
         rest = re.sub(r"\s+#\s.*$", "", rest)              # objdump's address comment of a rip-relative operand
         rest = re.sub(r"<[^>]*>", " ", rest)
@@ -525,6 +543,12 @@ def compare(isa, ptext, ltext, has_label, vocab=frozenset()):
     for a, b in zip(pi, li):
         if a == b:
             continue
+        if isa == "arm" and re.sub(r"(s|eq|ne|cs|cc|mi|pl|vs|vc|hi|ls|ge|lt|gt|le|al)*$", "", pmn) in ARM_DP | {"mov", "add"} \
+                and 0 <= a < 2 ** 32 and a in ARM_MODIMM_SET and not re.search(r"\b(lsl|lsr|asr|ror|rrx)\b", ltext.split(None, 1)[-1]):
+            if a == b % 2 ** 32:
+                continue            # llvm prints values >= 2^31 as negative numbers
+            # a data-processing immediate that HAS an exact modified-immediate encoding: no truncation excuse
+            return "mismatch_immediate", f"{a} vs {b}"
         if any(b == a - a % k for k in (2, 4, 8)):
             return "unknown_immediate_alignment", f"{a} vs {b}"     # low bits of a scaled offset dropped: C10's subject
         if a != 0 and b != 0 and (a % b == 0 or b % a == 0):
@@ -557,7 +581,13 @@ def check(ctx, only=None):
                     continue
                 if not hasattr(cls, "tokens") or getattr(cls, "syntax", None) is None:
                     continue
-                insts = build(cls, by_cls, ctx.rng, ints, ctx.thorough)
+                cints = ints
+                if isa == "arm":
+                    # modified-immediate operands: drawn from the set of REPRESENTABLE values (all of them for the
+                    # core classes, a sample + the edges for the rest)
+                    extra = ARM_MODIMM if is_core(cls) else ctx.rng.sample(ARM_MODIMM, 300 if ctx.thorough else 40)
+                    cints = list(dict.fromkeys(list(ints) + ARM_MODIMM_EDGE + list(extra)))
+                insts = build(cls, by_cls, ctx.rng, cints, ctx.thorough)
                 limit = None if is_core(cls) else (400 if ctx.thorough else 40)
                 if isa in ("arm", "thumb") and limit is not None:
                     limit = max(limit, 600)       # keeps the full register-pair grids of arm / thumb classes
